@@ -57,6 +57,9 @@ def run_case(case, rep, record=True):
         h = walk.build_harness(case["source"], MODE_LIST[0])
         spec = h.spec
         envs = [h.env] + [sources.make_env(h.scn, **m) for m in MODE_LIST[1:]]
+        if case.get("foreign"):
+            import nasim
+            foreign = sources.make_env(nasim.load_scenario(sources.shipped_path(case["foreign"])))
         ok_names = expressible(spec)
         if record:
             rep.evaluated()
